@@ -18,6 +18,9 @@ func (d *Design) Lower() *dt.Program {
 		p.Nodes = append(p.Nodes, l.scheme(s))
 	}
 	for _, t := range d.Types {
+		if t.CollectionOf != "" {
+			continue // CollectionOf(T) is written inline where it is used
+		}
 		p.Nodes = append(p.Nodes, l.userType(t))
 		l.declared[t.Name] = true
 	}
@@ -174,7 +177,7 @@ func (l *lowerer) typeArg(t *Type) (dt.Arg, bool) {
 		return dt.Call(n), true
 	case User:
 		ut := l.d.TypeByName(t.User)
-		if ut != nil && ut.CollectionOf != "" && ut.Attr == nil {
+		if ut != nil && ut.CollectionOf != "" {
 			if el := l.d.TypeByName(ut.CollectionOf); el != nil {
 				return dt.Call(dt.N("CollectionOf", dt.Ref(el.Var))), true
 			}
